@@ -69,7 +69,7 @@ def tlc(spec, cfg, workers=NCPU, metadir=None, extra="", env=None, timeout=3000,
     e["JAVA_TOOL_OPTIONS"] = opts
     if env:
         e.update(env)
-    cmd = "timeout %d tlc -workers %s -metadir %s %s -config %s %s.tla" % (timeout, workers, md, extra, cfg, spec)
+    cmd = "timeout %d tlc -noGenerateSpecTE -workers %s -metadir %s %s -config %s %s.tla" % (timeout, workers, md, extra, cfg, spec)
     t0 = time.time()
     rc, out = sh(cmd, env=e, cwd=SPEC, timeout=timeout + 60)
     shutil.rmtree(md, ignore_errors=True)
